@@ -46,6 +46,7 @@ def run(prog, tier, extra=None):
     R3 = res.rule("C13.longest-chain-lookup", "consensus values look blocks up by height only through the longest-chain index", floor=1)
     R4 = res.rule("C13.handled", "each still-unspent output of an expiring transaction is rebroadcast or collected as fees", floor=1)
     R5 = res.rule("C13.window-block-on-disk", "every block a full node stores is written to disk whatever its chain membership at that moment (the rebroadcast of block h + genesis_period reads block h from disk)", floor=1)
+    R6 = res.rule("C13.fee-deducted", "a rebroadcast whose fee is booked into total_fees_atr reappears worth that much less: the fee flows into what the rebroadcast constructor (or a later write to its outputs) receives", floor=2)
     R2 = res.rule("C13.derive", "Block::generate writes the rebroadcast commitment only under the ATR arm, for every ATR transaction", floor=3)
     bv = BlockValidate(prog)
     b, ch = bv.body, bv.ch
@@ -328,6 +329,75 @@ def run(prog, tier, extra=None):
         else:
             res.sample({"rule": R5, "write": abs5.loc(w), "conditions": ok5, "verdict": "depends on node/block kind only"})
 
+    # R6: "it reappears for the same owner (value plus treasury payout minus the rebroadcast fee)". Each rebroadcast branch of
+    # generate_consensus_values builds the ATR transaction and adds a fee to cv.total_fees_atr. If the fee is booked but the rebroadcast
+    # output is not reduced by it, the fee exists twice (the supply check then aborts every node that winds the block).
+    from ..fields import place_has_field as _phf6
+    from ..expr import walk as _wk6, call_name as _cn6
+    ch6 = Chaser(gcv)
+
+    def _deps(e, body, ch, limit=80):
+        seen, work, out = set(), [e], set()
+        while work and len(seen) < limit:
+            x = work.pop()
+            for y in _wk6(x):
+                if y[0] == "local" and y[1] not in seen:
+                    seen.add(y[1])
+                    out.add(y[1])
+                    for d in body.defs(y[1]):
+                        v = ch.rvalue(d[3], 0) if d[0] == "stmt" else ch.call(d[2], d[1], 0) if d[0] == "call" else None
+                        if v is not None:
+                            work.append(v)
+                    for d in body.partial_defs(y[1]):
+                        if d[0] == "stmt":
+                            work.append(ch.rvalue(d[3][2], 0))      # partial defs carry the whole statement
+        return out
+    ctor_sites = [(bb, t) for bb, t in gcv.calls() if (_cn6(t) or "").rsplit("::", 1)[-1].startswith("create_rebroadcast") and "Transaction" in (_cn6(t) or "")]
+    fee_adds = {}
+    for bb, blk in enumerate(gcv.blocks):
+        for st in blk["s"]:
+            if st[0] == "=" and _phf6(st[1], "ConsensusValues", "total_fees_atr") is not None:
+                fee_adds[bb] = ch6.rvalue(st[2], 0)
+    for cbb, ct in ctor_sites:
+        res.instance(R6)
+        hloop = gcv.innermost_loop_containing([cbb])
+        stop = {hloop} if hloop is not None else set()
+        region = gcv.reachable(cbb, blocked=stop)
+        # the fee booked in the same arm: before or after the constructor call, on the same straight stretch (one dominates the other,
+        # same innermost loop), nearest in reverse post-order
+        order6 = {b_: i for i, b_ in enumerate(gcv.rpo())}
+        fees_here = [(abs(order6.get(fb, 10 ** 6) - order6.get(cbb, 0)), fb, fe) for fb, fe in fee_adds.items()
+                     if (gcv.dominates(fb, cbb) or gcv.dominates(cbb, fb)) and gcv.innermost_loop_containing([fb]) == hloop]
+        if not fees_here:
+            res.sample({"rule": R6, "site": gcv.loc(cbb), "verdict": "no fee booked for this rebroadcast"})
+            continue
+        _, fb, fe = sorted(fees_here)[0]
+        fee_locals = {y[1] for y in _wk6(fe) if y[0] == "local"} | _deps(fe, gcv, ch6)
+        fee_locals = {l for l in fee_locals if (gcv.name_of(l) or "").find("fee") >= 0} or fee_locals
+        arg_deps = set()
+        for a in ct["args"]:
+            arg_deps |= _deps(ch6.origin(a), gcv, ch6)
+        later = set()
+        d0 = ct["dest"][0]
+        for rb in region:
+            for st in gcv.stmts(rb):
+                if st[0] == "=" and st[1][1]:
+                    base6 = st[1][0]
+                    into_tx = base6 == d0
+                    if not into_tx:
+                        # `rebroadcast_tx.to[1].amount = ..` writes through the reference IndexMut::index_mut returned
+                        for d in gcv.defs(base6):
+                            v6 = ch6.call(d[2], d[1], 0) if d[0] == "call" else ch6.rvalue(d[3], 0) if d[0] == "stmt" else None
+                            if v6 is not None and any((y[0] == "local" and y[1] == d0) or (y[0] in ("call", "via") and isinstance(y[-1], int) and y[-1] == cbb) for y in _wk6(v6)):
+                                into_tx = True
+                    if into_tx:
+                        later |= _deps(ch6.rvalue(st[2], 0), gcv, ch6)
+        if fee_locals & (arg_deps | later):
+            res.sample({"rule": R6, "site": gcv.loc(cbb), "fee_booked_at": gcv.loc(fb), "verdict": "the fee reaches the rebroadcast transaction"})
+        else:
+            res.add(Finding(R6, "C13.fee-deducted|%s" % (_cn6(ct) or "").rsplit("::", 1)[-1], "generate_consensus_values books a rebroadcast fee into total_fees_atr (%s) but nothing handed to %s, and "
+                            "nothing written into the transaction it returns, depends on that fee: the output reappears with the full amount and the fee exists twice"
+                            % (gcv.loc(fb), (_cn6(ct) or "").rsplit("::", 1)[-1]), gcv.loc(cbb)))
     # a rebroadcast "consumes" the expiring output only if its input is looked up in the UTXO set like any other input
     from ._include import include
     include(res, prog, tier, extra, "c03", ["C03.ring-positions"],
